@@ -336,9 +336,13 @@ func ExtractAcraBlockFromData(data []byte) (int, AcraBlock, error) {
 
 // NewAcraBlockFromData expects that whole data is one AcraBlock, validate and return, otherwise error
 func NewAcraBlockFromData(data []byte) (AcraBlock, error) {
-	_, block, err := ExtractAcraBlockFromData(data)
+	n, block, err := ExtractAcraBlockFromData(data)
 	if err != nil {
 		return nil, err
+	}
+	// the whole data must be one AcraBlock: trailing bytes mean the enclosing length was tampered with
+	if n != len(data) {
+		return nil, ErrInvalidAcraBlock
 	}
 	return block, nil
 }
